@@ -45,6 +45,9 @@ type LoginSpec struct {
 	Form   string `json:"form"` // key | keypad | cert | password
 	KeyID  string `json:"keyid,omitempty"`
 	Serial uint64 `json:"serial,omitempty"`
+	// SerialText, when set, is printed in place of Serial (digit strings a uint64 does not hold,
+	// leading zeros)
+	SerialText string `json:"serialtext,omitempty"`
 	Alg    string `json:"alg,omitempty"`
 	FP     string `json:"fp,omitempty"`
 	CAFP   string `json:"cafp,omitempty"`
@@ -57,8 +60,12 @@ func (l *LoginSpec) Message() string {
 	case "password":
 		return fmt.Sprintf("Accepted password for %s from %s port %d ssh2", l.User, l.IP, l.Port)
 	case "cert":
-		return fmt.Sprintf("Accepted publickey for %s from %s port %d ssh2: %s-CERT SHA256:%s ID %s (serial %d) CA %s SHA256:%s",
-			l.User, l.IP, l.Port, l.Alg, l.FP, l.KeyID, l.Serial, l.Alg, l.CAFP)
+		serial := fmt.Sprint(l.Serial)
+		if l.SerialText != "" {
+			serial = l.SerialText
+		}
+		return fmt.Sprintf("Accepted publickey for %s from %s port %d ssh2: %s-CERT SHA256:%s ID %s (serial %s) CA %s SHA256:%s",
+			l.User, l.IP, l.Port, l.Alg, l.FP, l.KeyID, serial, l.Alg, l.CAFP)
 	case "keypad":
 		return fmt.Sprintf("Accepted publickey for %s from %s port %d ssh2: %s SHA256:%s %s", l.User, l.IP, l.Port, l.Alg, l.FP, l.Pad)
 	default:
